@@ -354,7 +354,7 @@ Proof.
     + destruct Hc as (_ & _ & ->). reflexivity.
     + destruct Hc as (_ & _ & _ & ->). reflexivity.
     + destruct Hc as (_ & _ & ->). reflexivity.
-    + destruct Hc as (_ & _ & e & _ & ->). reflexivity.
+    + destruct Hc as (_ & e & _ & ->). reflexivity.
     + destruct Hc as (_ & _ & _ & ->). reflexivity.
   - unfold st_add. rewrite Ep. reflexivity.
 Qed.
